@@ -170,6 +170,56 @@ theorem failed_write_returns_error (tmp dst : Path) (N mode : Nat) (pieces : Lis
   rw [hacts, htl, hws] at h
   simp at h
 
+/-- **a panicking callback**: if the callback panics after any number `j` of pieces (nothing, less than a buffer,
+    exactly a buffer or more than a buffer handed over before it), the panic leaves the call (result `panic`), the
+    action sequence contains no rename at all, the destination is untouched after EVERY prefix of the actions (every
+    kill point, and the moment the panic reaches the caller) and at the end no temporary file remains -/
+theorem callback_panic_leaves_dst (u : Nat) (fs : FS) (tmp dst : Path) (hne : tmp ≠ dst) (N mode : Nat)
+    (pieces : List Bytes) (cb : CbMode) (j k : Nat) :
+    (writeFile tmp dst N mode pieces cb (.panic j)).1 = .panic ∧
+    (∀ s d, Act.rename s d ∉ (writeFile tmp dst N mode pieces cb (.panic j)).2) ∧
+    run u fs ((writeFile tmp dst N mode pieces cb (.panic j)).2.take k) dst = fs dst ∧
+    run u fs (writeFile tmp dst N mode pieces cb (.panic j)).2 tmp = none := by
+  have hres : (writeFile tmp dst N mode pieces cb (.panic j)).1 = .panic := by
+    rw [writeFile_closed]
+    unfold writeFileClosed
+    have hcreate : File.create tmp dst mode = (openFile tmp dst, [.createExcl tmp mode]) := rfl
+    simp only [hcreate, Fault.writeAt, attempted, writeAll_none]
+    simp [Fault.isCallback, Fault.stopRes]
+  have hne' : (writeFile tmp dst N mode pieces cb (.panic j)).1 ≠ .ok := by rw [hres]; simp
+  refine ⟨hres, ?_, ?_, failure_removes_tmp u fs tmp dst N mode pieces cb _ hne'⟩
+  · intro s d hmem
+    simp only [writeFile_closed] at hmem hne'
+    obtain ⟨ws, tl, hacts, hws, htl, hiff, _⟩ := writeFile_shape tmp dst N mode pieces (.panic j)
+    have hnc : tl ≠ [.close tmp, .rename tmp dst] := fun e => hne' (hiff.mpr e)
+    rw [hacts] at hmem
+    simp only [List.mem_append, List.mem_singleton] at hmem
+    rcases hmem with (h | h) | h
+    · cases h
+    · rcases hws _ h with ⟨c, hc⟩ | ⟨n, hn⟩ <;> simp at *
+    · cases htl with
+      | commit => exact hnc rfl
+      | abort => simp at h
+      | closeFail => simp at h
+      | renameFail => simp at h
+  · simp only [writeFile_closed] at hne' ⊢
+    obtain ⟨ws, tl, hacts, hws, htl, hiff, _⟩ := writeFile_shape tmp dst N mode pieces (.panic j)
+    have hnc : tl ≠ [.close tmp, .rename tmp dst] := fun e => hne' (hiff.mpr e)
+    have hd : dst ≠ tmp := fun e => hne e.symm
+    rw [hacts]
+    apply run_untouched
+    intro a ha
+    have ha := List.mem_of_mem_take ha
+    simp only [List.mem_append, List.mem_singleton] at ha
+    rcases ha with (rfl | ha) | ha
+    · simp [targets, hd]
+    · exact onlyWrites_targets tmp dst hd ws hws a ha
+    · cases htl with
+      | commit => exact absurd rfl hnc
+      | abort => simp at ha; rcases ha with rfl | rfl <;> simp [targets, hd]
+      | closeFail => simp at ha; rcases ha with rfl | rfl <;> simp [targets, hd]
+      | renameFail => simp at ha; rcases ha with rfl | rfl | rfl <;> simp [targets, hd]
+
 /-- **a failing call leaves the whole directory as it was** (the temporary name was free, as `O_EXCL` demands):
     same listing, same contents, same modes -/
 theorem failure_clean (u : Nat) (fs : FS) (tmp dst : Path) (hne : tmp ≠ dst) (N mode : Nat)
